@@ -11,7 +11,7 @@ import ast
 from ..model import AnalysisError, unparse
 from ..report import RuleResult
 from ._c20_sem import (Flow, assume_truth, attr_stores, callee_names, const_seq, dict_keys, is_em_dataset, is_metadata_of, is_self,
-                       keys_read, reach_assuming, specialise, view)
+                       keys_read, reach_assuming, specialise, specialise_identity, view)
 
 
 def _global_resolver(p, mod):
@@ -79,6 +79,11 @@ def _flow(ctx, fn, K=None) -> Flow:
 
     node = specialise(fv.node, fn.self_name or "self", is_a)
     fl = Flow(node, {"TYPE_MAP": _type_map(ctx)}, outer)
+    if any(isinstance(x, ast.Compare) and isinstance(x.ops[0], (ast.Is, ast.IsNot)) and any(is_self(y, fn.self_name or "self") for y in [x.left] + x.comparators) for x in ast.walk(node)):
+        # `... is self` tests decided by which locals stand for self (roles named first, a field chosen by identity afterwards)
+        node2 = specialise_identity(node, fn.self_name or "self", fl, is_a)
+        if node2 is not node:
+            fl = Flow(node2, {"TYPE_MAP": _type_map(ctx)}, outer)
     fl.view_node = fv.node
     return fl
 
@@ -706,6 +711,21 @@ def _cache_fields(ctx, K, g) -> set:
     return {f for f in returned if any(any(is_self(a, gsn) for a in gfl.origins(r)) for r, _, _ in attr_stores(gfl.node, f, gfl))}
 
 
+def _reach_settled(cfg, starts, avoid=lambda n: False):
+    """Nodes reachable from starts; a test that specialisation settled (a constant) only continues on the side it takes."""
+    seen, work = set(), list(starts)
+    while work:
+        n = work.pop()
+        if n in seen or avoid(n):
+            continue
+        seen.add(n)
+        succ = n.succ
+        if n.kind == "test" and isinstance(n.ast, ast.Constant):
+            succ = [(m, l) for m, l in succ if l != ("false" if n.ast.value else "true")]
+        work += [m for m, _ in succ if m not in seen]
+    return seen
+
+
 def rule_linkcache(ctx) -> RuleResult:
     res = RuleResult(
         "C20.LINKCACHE",
@@ -719,7 +739,6 @@ def rule_linkcache(ctx) -> RuleResult:
     )
     p = ctx.p
     from ..cfg import CFG
-    from ..kinds import reach
 
     mod, type_map, omit = em_tables(ctx)
     sites, seen = [], set()
@@ -744,7 +763,7 @@ def rule_linkcache(ctx) -> RuleResult:
             raise AnalysisError(f"anchor {K.name}.{link} setter has no value parameter")
         sn, prm = s.params[0], s.params[1]
         fl = _flow(ctx, s, K)
-        cfg = CFG(fl.view_node)
+        cfg = CFG(fl.node)  # the body specialised to the class of self: settled tests are constants, pruned below
 
         def records(a) -> bool:
             """the statement hands the link to the metadata setter: self.edit_em_metadata(..) / self.metadata = .."""
@@ -783,12 +802,12 @@ def rule_linkcache(ctx) -> RuleResult:
                     ordered = True
         # can the metadata setter itself refuse the dictionary (explicit raise in its normalised body)?
         validating = bool(ms and ms[1] == "prop" and ms[2].setter is not None and any(isinstance(x, ast.Raise) for x in ast.walk(mfl.node)))
-        before = reach(cfg, [cfg.entry], avoid=lambda n: n in stores)
+        before = _reach_settled(cfg, [cfg.entry], avoid=lambda n: n in stores)
         if ordered:
             ok = not any(e in before for e in events)
             what = "before the metadata is handed to the metadata setter"
         else:
-            ok = not any(e in before and cfg.exit in reach(cfg, [e], avoid=lambda n: n in stores) for e in events)
+            ok = not any(e in before and cfg.exit in _reach_settled(cfg, [e], avoid=lambda n: n in stores) for e in events)
             what = "on every path that records the link"
         fld = sorted(filled)[0]
         res.inst(f"{K.name}.{link} setter re-binds self.{fld} {what}", nontrivial=True, ok=ok)
@@ -808,7 +827,7 @@ def rule_linkcache(ctx) -> RuleResult:
         refusals = [n for n in cfg.nodes if n.kind == "raise"]
         if validating and not ordered:
             refusals += [n for n in nodes if attr_stores(n.ast, "metadata", fl)]
-        after = reach(cfg, [m for b in binds for m, _ in b.succ]) if binds else set()
+        after = _reach_settled(cfg, [m for b in binds for m, _ in b.succ]) if binds else set()
         hit = [r for r in refusals if r in after]
         ok = not hit
         res.inst(f"{K.name}.{link} setter: no refusal (raise / validating metadata write) can follow the re-binding of self.{fld}", nontrivial=True, ok=ok)
@@ -1069,7 +1088,7 @@ def rule_partnercache(ctx) -> RuleResult:
         "direct current: `<partner>.metadata = d` in the link setters) also re-binds (to self) or resets that partner's own "
         "link cache — the fields the link getters fill and return — otherwise, after a re-link from this side, the partner "
         "keeps answering with its PREVIOUS partner while its metadata names this entity",
-        floor=3,
+        floor=2,
     )
     p = ctx.p
     from ..cfg import CFG
@@ -1119,7 +1138,7 @@ def rule_partnercache(ctx) -> RuleResult:
         for n in nodes:
             for r, _v, _ in attr_stores(n.ast, dict_attr, fl):
                 ro = fl.origins(r)
-                if any(is_self(x, sn) for x in ro):
+                if ro and all(is_self(x, sn) for x in ro):
                     continue
                 if only is not None and not any(isinstance(x, ast.Name) and x.id == only for x in ro + [r]):
                     continue
@@ -1159,7 +1178,7 @@ def rule_cachebind(ctx) -> RuleResult:
         "parameter of the function) only where the same normalised function also records the link in the metadata "
         "(edit_em_metadata / `self.metadata = ...`): a cache-only link (e.g. through a constructor keyword) is answered by the "
         "getter but recorded on neither entity, and the first metadata write through it overwrites the partner's dictionary",
-        floor=5,
+        floor=2,
     )
     p = ctx.p
     em_fields, dc_fields = _link_cache_fields(ctx)
